@@ -209,7 +209,8 @@ fn record_elem(e: &Elem, o: &RecOpts) -> (Vec<String>, u64, u64) {
                                 ev.insert("pout".into(), proj::flat(src_out.root()).to_value());
                             }
                             if o.parts.contains("lines") {
-                                ev.insert("lines".into(), json!(proj::lines(&out)));
+                                let copied = proj::disabled_continuation_lines(src_in.root());
+                                ev.insert("lines".into(), json!(proj::lines_with_copied(&out, &copied)));
                                 ev.insert("ml".into(), json!(proj::multiline_spans(&src_out)));
                             }
                             if o.passes {
@@ -259,6 +260,13 @@ fn record_elem(e: &Elem, o: &RecOpts) -> (Vec<String>, u64, u64) {
         events.extend(evs);
         calls += c;
         nontrivial += nt;
+    }
+    if !ierr && o.parts.contains("attr") {
+        let nodes = proj::attr_nodes(src_in.root());
+        if !nodes.is_empty() {
+            events.push(json!({"ev": "attr", "id": e.id, "sha": sha_in, "tab": 2, "bl": 2, "ro": false, "ws": [0],
+                               "outcome": "ok", "nodes": nodes}).to_string());
+        }
     }
     if !ierr && o.parts.contains("unit") {
         let (evs, c, nt) = record_unit(e, o, &sha_in);
@@ -350,6 +358,7 @@ fn record_off(e: &Elem, o: &RecOpts, src_in: &Source, sha_in: &str) -> (Vec<Stri
 
 /// C12 (R12b): outputs under pairs of indent units at a width where nothing needs wrapping.
 fn record_unit(e: &Elem, o: &RecOpts, sha_in: &str) -> (Vec<String>, u64, u64) {
+    let copied = proj::disabled_continuation_lines(Source::detached(e.text.as_str()).root());
     let mut events = vec![];
     let (mut calls, mut nt) = (0u64, 0u64);
     let units: Vec<usize> = o.tabs.clone();
@@ -361,7 +370,7 @@ fn record_unit(e: &Elem, o: &RecOpts, sha_in: &str) -> (Vec<String>, u64, u64) {
                 nt += 1;
             }
             let s = Source::detached(out.clone());
-            outs.push((u, proj::unit_lines(&out, &s)));
+            outs.push((u, proj::unit_lines(&out, &s, &copied)));
         }
     }
     for i in 0..outs.len() {
@@ -398,6 +407,7 @@ fn build_universe(a: &Args) -> (Vec<Elem>, BTreeMap<String, u64>) {
                     &universe::GapOpts {
                         seed,
                         single: a.frac("single", (1, 1)),
+                        single_fixed: a.frac("single-fixed", (1, 1)),
                         pair: a.frac("pair", (0, 1)),
                         pair_fixed: a.frac("pair-fixed", (1, 1)),
                         seed_tags: a.list("seed-tags"),
@@ -416,6 +426,7 @@ fn build_universe(a: &Args) -> (Vec<Elem>, BTreeMap<String, u64>) {
                     &universe::GapOpts {
                         seed: 0x5eed_f1ed,
                         single: a.frac("nl-fixed", (1, 40)),
+                        single_fixed: (1, 1),
                         pair: (0, 1),
                         pair_fixed: (1, 1),
                         seed_tags: a.list("seed-tags"),
